@@ -301,7 +301,7 @@ func (c *FnCtx) evalBuiltin(env *Env, name string, x *ast.CallExpr) Val {
 		return c.lenCap(env, name, v, x)
 	case "panic":
 		c.eval(env, x.Args[0])
-		c.safe(st, "panic", "false", x)
+		c.panicIf(st, "true", "panic", x)
 		st.pc = "false"
 		return Val{}
 	case "min", "max":
@@ -349,6 +349,16 @@ func (c *FnCtx) evalBuiltin(env *Env, name string, x *ast.CallExpr) Val {
 			return c.makeMap(env, t, u)
 		case *types.Chan:
 			a := c.allocate(st, "8")
+			capT := "0"
+			if len(x.Args) > 1 {
+				cp := c.eval(env, x.Args[1])
+				c.safe(st, "makechan", app(">=", cp.T, "0"), x)
+				capT = cp.T
+			}
+			c.ghostSet(st, "chclosed", a, "0")
+			c.ghostSet(st, "chhead", a, "0")
+			c.ghostSet(st, "chtail", a, "0")
+			c.ghostSet(st, "chcap", a, capT)
 			return Val{T: a, Typ: t}
 		}
 	case "append":
@@ -363,9 +373,10 @@ func (c *FnCtx) evalBuiltin(env *Env, name string, x *ast.CallExpr) Val {
 	case "clear":
 		c.unsup(x, "clear")
 	case "recover":
-		return c.zero(types.NewInterfaceType(nil, nil))
+		return c.evalRecover(env)
 	case "close":
-		c.unsup(x, "close")
+		c.chanClose(st, c.eval(env, x.Args[0]), x)
+		return Val{}
 	case "Add":
 		// unsafe.Add(ptr, n): raw pointer arithmetic; addresses are integers
 		p := c.eval(env, x.Args[0])
@@ -404,7 +415,11 @@ func (c *FnCtx) lenCap(env *Env, name string, v Val, n ast.Node) Val {
 		}
 		c.unsup(n, "len of map")
 	case *types.Chan:
-		c.unsup(n, "len of chan")
+		// len: values queued; cap: the buffer size given to make (0 for a nil channel)
+		if name == "len" {
+			return Val{T: ite(eq(v.T, "0"), "0", app("-", c.ghostGet(env.st, "chtail", v.T), c.ghostGet(env.st, "chhead", v.T))), Typ: types.Typ[types.Int]}
+		}
+		return Val{T: ite(eq(v.T, "0"), "0", c.ghostGet(env.st, "chcap", v.T)), Typ: types.Typ[types.Int]}
 	}
 	c.unsup(n, "%s of %s", name, t)
 	return Val{}
@@ -593,6 +608,15 @@ func (c *FnCtx) callFunc(env *Env, fn *types.Func, recv *Val, args []Val, x *ast
 	}
 	v := c.callFuncInner(env, fn, recv, args, x, targs)
 	c.monitorHook(env, fn, recv, x)
+	if c.C != nil && len(c.C.StepInvs) > 0 && len(c.frames) == 1 && c.inSpec == 0 && !env.st.dead() {
+		if k := FuncKey(fn); strings.HasPrefix(k, "sync.") || strings.HasPrefix(k, "sync/atomic.") {
+			c.stepN++
+			for _, cl := range c.C.StepInvs {
+				g := c.eval(c.specEnvAt(env.st, x.Pos()), cl.Expr)
+				c.oblige(env.st, "stepinv", fmt.Sprintf("%s@%s#%d", cl.Label, fn.Name(), c.stepN), g.T, cl.Src, cl.Try, x)
+			}
+		}
+	}
 	if site != "" {
 		c.siteAsserts(env.st, "after "+site, x)
 	}
